@@ -256,7 +256,19 @@ func z9Body(sc z9Scenario) func() {
 			mcrt.WaitIdle(false) // let stragglers of this attempt finish
 			mcrt.Observe("attempt %d: %v", attempt, z9Err(err))
 			m := w.linked()
-			if err == nil {
+			malformed := false
+			for _, f := range sc.Faults {
+				if strings.HasPrefix(f, "manifest-") {
+					malformed = true // what the registry served in this attempt may itself be an altered manifest
+				}
+			}
+			if err == nil && malformed && !clean {
+				if m == nil {
+					mcrt.Fail("C09: success-not-linked: Pull reported success but the name is not linked")
+				} else if msg := w.checkManifest(m); msg != "" {
+					mcrt.Fail("C09: success-incomplete: Pull reported success (attempt %d) but %s", attempt, msg)
+				}
+			} else if err == nil {
 				if m == nil || !bytes.Equal(m, served) {
 					mcrt.Fail("C09: success-not-linked: Pull reported success but the name is not linked to the manifest the registry served")
 				}
@@ -401,6 +413,7 @@ func z9Scenarios(thorough bool) []z9Scenario {
 		{Name: "handler-chunked", Op: "pull", Layers: []int{12}, MaxStreams: 2, Handler: true, Faults: []string{"500", "neterr", "truncate", "flip"}, Faulty: 1},
 		{Name: "handler-two-layers", Op: "pull", Layers: []int{3, 12}, Config: 2, MaxStreams: 1, Handler: true, Faults: []string{"500", "neterr"}, Faulty: 1},
 		{Name: "push", Op: "push", Layers: []int{3, 12}, MaxStreams: 2, Faults: []string{"500", "neterr", "307"}},
+		{Name: "malformed-manifest", Op: "pull", Layers: []int{3, 12}, Config: 2, MaxStreams: 1, Faults: []string{"badjson", "manifest-empty-digest", "manifest-short-digest", "manifest-nohex-digest", "manifest-null-layer", "manifest-negative-size", "manifest-dup-layer", "manifest-wrong-size"}, Faulty: 1},
 		{Name: "push-config", Op: "push", Layers: []int{3}, Config: 2, MaxStreams: 1},
 		{Name: "push-cancel", Op: "push", Layers: []int{3, 12}, MaxStreams: 1, Cancel: true},
 		{Name: "push-cancel-late", Op: "push", Layers: []int{3, 12}, MaxStreams: 1, CancelLate: true, Faults: []string{"500"}},
